@@ -165,4 +165,11 @@ theorem C09_no_code_otherwise (lower : Bytes → Bytes) (emailOK : Bytes → Boo
   | signInPage => exact Or.inr (Or.inl rfl)
   | error n => exact Or.inr (Or.inr ⟨n, rfl⟩)
 
+/-- Tie (T1): the authenticator coalesces concurrent validations **by access token** and refreshes **by refresh token**,
+so the "provider confirms the token" premise of `C09_code_only_if` is about the session's *own* token even when another
+session of the same user is being validated at the same time. -/
+theorem C09_checks_keyed_by_token :
+    Sso.Generated.sf_keys_auth.lookup "ValidateSessionState" = some "s.AccessToken" ∧
+    Sso.Generated.sf_keys_auth.lookup "RefreshSessionIfNeeded" = some "s.RefreshToken" := by decide
+
 end Sso.AuthN
